@@ -832,11 +832,7 @@ func (g *gen) gradients() {
 		hc.Try(func() { img2 = rasterizer.Draw(cv, canvas.DPMM(dpmm), space) })
 		c.Evals++
 		if img2 == nil || !bytes.Equal(img.Pix, img2.Pix) {
-			if mutated && !linear {
-				c.Count("render-twice differs because the first render rewrote the stops")
-			} else {
-				c.Fail("nondeterministic:render-twice", "rendering the same gradient canvas twice gives different images", replay)
-			}
+			c.Fail("nondeterministic:render-twice", fmt.Sprintf("rendering the same gradient canvas twice gives different images (stops rewritten by the first render: %v)", mutated), replay)
 		}
 		c.Count(fmt.Sprintf("gradient dir=%d dpmm=%.3g linear=%v", dir, dpmm, linear))
 		c.Distinct(fmt.Sprint(replay))
